@@ -44,6 +44,25 @@ fn text_case(ctx: &mut Ctx, s: &str) {
     let i = serde_json::from_str::<IntValue>(&json_str(s)).is_ok();
     let f = serde_json::from_str::<FloatValue>(&json_str(s)).is_ok();
     if n1 != spec_name(s) || n2 != n1 || n3 != n1 { ctx.fail("name-vs-grammar", s, &format!("Name::new={n1} serde={n2} is_valid_syntax={n3} grammar={}", spec_name(s))); }
+    // audit G2: every other way to create a Name from a string, and the owned-string path of the deserializers
+    {
+        let owned = s.to_string();
+        let ways: [(&str, bool); 6] = [
+            ("TryFrom<&str>", Name::try_from(s).is_ok()),
+            ("TryFrom<String>", Name::try_from(owned.clone()).is_ok()),
+            ("TryFrom<&String>", Name::try_from(&owned).is_ok()),
+            ("TryFrom<Arc<str>>", Name::try_from(std::sync::Arc::<str>::from(s)).is_ok()),
+            ("new_static", Name::new_static(Box::leak(owned.clone().into_boxed_str())).is_ok()),
+            ("serde from_value", serde_json::from_value::<Name>(serde_json::Value::String(owned.clone())).is_ok()),
+        ];
+        for (way, ok) in ways { if ok != spec_name(s) { ctx.fail("name-vs-grammar", s, &format!("{way} ok={ok}, grammar={}", spec_name(s))); } }
+        let iv = serde_json::from_value::<IntValue>(serde_json::Value::String(owned.clone())).is_ok();
+        let fv = serde_json::from_value::<FloatValue>(serde_json::Value::String(owned)).is_ok();
+        if iv != spec_int(s) { ctx.fail("int-literal-vs-grammar", s, &format!("IntValue deserialize (owned string) ok={iv}, grammar={}", spec_int(s))); }
+        if fv != spec_float(s) { ctx.fail("float-literal-vs-grammar", s, &format!("FloatValue deserialize (owned string) ok={fv}, grammar={}", spec_float(s))); }
+        // a created name is the string
+        if let Ok(nm) = Name::new(s) { if nm.as_str() != s { ctx.fail("name-vs-grammar", s, &format!("Name::new gives {:?}", nm.as_str())); } }
+    }
     if i != spec_int(s) { ctx.fail("int-literal-vs-grammar", s, &format!("IntValue deserialize ok={i}, grammar={}", spec_int(s))); }
     if f != spec_float(s) {
         let key = if s.ends_with(['e', 'E', '+', '-']) { "float-literal-empty-exponent" } else { "float-literal-vs-grammar" };
@@ -58,6 +77,13 @@ fn i32_case(ctx: &mut Ctx, v: i32) {
     let text = iv.as_str().to_string();
     if !spec_int(&text) { ctx.fail("i32-invalid-literal", &v.to_string(), &text); }
     if iv.try_to_i32().ok() != Some(v) { ctx.fail("i32-roundtrip", &v.to_string(), &text); }
+    // audit G2: an IntValue is also accepted where a Float is expected: the same number (every i32 is exact in f64)
+    if iv.try_to_f64().ok().map(f64::to_bits) != Some((v as f64).to_bits()) { ctx.fail("i32-roundtrip", &v.to_string(), &format!("try_to_f64 of {text} = {:?}", iv.try_to_f64().ok())); }
+    match apollo_compiler::ast::Value::from(v) {
+        apollo_compiler::ast::Value::Int(i2) if i2.as_str() == text => {}
+        other => ctx.fail("i32-roundtrip", &v.to_string(), &format!("Value::from(i32) = {other:?}")),
+    }
+    if text != v.to_string() || iv.to_string() != text { ctx.fail("i32-invalid-literal", &v.to_string(), &format!("as_str {text:?}, Display {:?}", iv.to_string())); }
     if serde_json::from_str::<IntValue>(&json_str(&text)).is_err() { ctx.fail("i32-invalid-literal", &v.to_string(), "not deserializable"); }
     ctx.nontrivial(&text);
     ctx.case("i32", &[v.to_string()], &text);
@@ -77,6 +103,13 @@ fn f64_case(ctx: &mut Ctx, v: f64) {
     let fv = match catch(|| FloatValue::from(v)) { Ok(f) => f, Err(p) => { ctx.fail("f64-panic", &shown, &p); return; } };
     let text = fv.as_str().to_string();
     if !spec_float(&text) { ctx.fail("f64-invalid-literal", &shown, &text); }
+    // audit G2: the value constructors built on it, and the text the document printer writes for the value
+    match catch(|| apollo_compiler::ast::Value::from(v)) {
+        Ok(apollo_compiler::ast::Value::Float(f2)) if f2.as_str() == text => {}
+        Ok(other) => ctx.fail("f64-roundtrip", &shown, &format!("Value::from(f64) = {other:?}, FloatValue::from(f64) = {text}")),
+        Err(p) => ctx.fail("f64-panic", &shown, &p),
+    }
+    if fv.to_string() != text || apollo_compiler::ast::Value::Float(fv.clone()).serialize().no_indent().to_string() != text { ctx.fail("f64-invalid-literal", &shown, &format!("Display {:?} / serialized value differ from as_str {text:?}", fv.to_string())); }
     match fv.try_to_f64() {
         Ok(back) if back.to_bits() == v.to_bits() || (back == v && v == 0.0 && back.is_sign_negative() == v.is_sign_negative()) => {}
         other => ctx.fail("f64-roundtrip", &shown, &format!("{other:?}")),
@@ -135,6 +168,52 @@ fn type_cases(ctx: &mut Ctx) {
     let n = if ctx.thorough { 20_000 } else { 2_000 };
     for _ in 0..n { let d = match ctx.rng.below(10) { 0..=5 => ctx.rng.below(12), 6..=8 => 8 + ctx.rng.below(60), _ => 60 + ctx.rng.below(200) }; let t = wrap(&mut ctx.rng, d); type_case(ctx, &t); }
     for d in [398usize, 400, 498, 499, 500, 501, 502, 520] { let t = wrap(&mut ctx.rng, d); type_case(ctx, &t); }
+    // audit G2: every keyword-like name under every wrapper shape; and every enumerated type at the places of a document
+    // that hold a type reference (printed by the document serializer, read back by the document parser)
+    let keywords = ["query", "mutation", "subscription", "fragment", "on", "true", "false", "null", "schema", "extend", "scalar", "type", "interface", "implements", "union", "enum", "input", "directive", "repeatable",
+        "Int", "String", "__Type", "_", "a", "Z9_", "x".repeat(300).as_str()].map(|s| s.to_string());
+    let mut n = 0u64;
+    for k in &keywords {
+        for t in crate::p29::all_types(2, &[k.as_str()]) { type_case(ctx, &t); type_doc_case(ctx, &t); n += 1; }
+    }
+    ctx.stat_n("types_keyword_names", n);
+    for t in &types { if nesting(t) <= 4 { type_doc_case(ctx, t); } }
+    for d in [5usize, 17, 60] { let t = wrap(&mut ctx.rng, d); type_doc_case(ctx, &t); }
+}
+
+/// a type reference at every place of a document that holds one: Display of the whole document, parsed back
+fn type_doc_case(ctx: &mut Ctx, t: &Type) {
+    use apollo_compiler::ast;
+    let p = t.to_string();
+    let src = format!("type T {{ f(a: {p}): {p} }} interface J {{ h: {p} }} input I {{ g: {p} }} directive @d(x: {p}) on FIELD extend type T {{ e(b: {p} = null): {p} }} query($v: {p}, $w: {p} = null @d) {{ f }}");
+    fn collect(doc: &ast::Document) -> Vec<Type> {
+        let mut out = vec![];
+        let fds = |fs: &Vec<apollo_compiler::Node<ast::FieldDefinition>>, out: &mut Vec<Type>| for f in fs { for a in &f.arguments { out.push((*a.ty).clone()); } out.push(f.ty.clone()); };
+        for def in &doc.definitions {
+            match def {
+                ast::Definition::ObjectTypeDefinition(x) => fds(&x.fields, &mut out),
+                ast::Definition::ObjectTypeExtension(x) => fds(&x.fields, &mut out),
+                ast::Definition::InterfaceTypeDefinition(x) => fds(&x.fields, &mut out),
+                ast::Definition::InputObjectTypeDefinition(x) => for f in &x.fields { out.push((*f.ty).clone()); },
+                ast::Definition::DirectiveDefinition(x) => for a in &x.arguments { out.push((*a.ty).clone()); },
+                ast::Definition::OperationDefinition(x) => for v in &x.variables { out.push((*v.ty).clone()); },
+                _ => {}
+            }
+        }
+        out
+    }
+    let first = match catch(|| ast::Document::parse(src.clone(), "t.graphql")) { Ok(Ok(d)) => d, Ok(Err(e)) => { ctx.fail("type-roundtrip", &p, &format!("in a document: does not parse: {}", e.errors.to_string().lines().next().unwrap_or(""))); return } Err(m) => { ctx.fail("type-parse-panic", &p, &m); return } };
+    let a = collect(&first);
+    if a.len() != 9 || a.iter().any(|x| x != t) { ctx.fail("type-roundtrip", &p, &format!("in a document: 9 type references written, read {:?}", a.iter().map(|x| x.to_string()).collect::<Vec<_>>())); }
+    // now through the serializer (Display for Type inside the document printer), both layouts
+    for text in [first.to_string(), first.serialize().no_indent().to_string()] {
+        match catch(|| ast::Document::parse(text.clone(), "t2.graphql")) {
+            Ok(Ok(d)) => { let b = collect(&d); if b.len() != 9 || b.iter().any(|x| x != t) { ctx.fail("type-roundtrip", &p, &format!("printed in a document as {text:?}, read back {:?}", b.iter().map(|x| x.to_string()).collect::<Vec<_>>())); } }
+            Ok(Err(_)) => ctx.fail("type-roundtrip", &p, &format!("printed document does not parse: {text:?}")),
+            Err(m) => ctx.fail("type-parse-panic", &text, &m),
+        }
+    }
+    ctx.stat("types_in_document_positions");
 }
 
 /// `try_to_i32` on texts with IntValue syntax, against an independent wide-integer evaluation
@@ -203,6 +282,21 @@ pub fn run(ctx: &mut Ctx) {
     let mut all = vec![];
     for_all_strings(&alphabet, k, |s| all.push(s.to_string()));
     for s in &all { text_case(ctx, s); }
+    // audit G2: every character on its own, first, last, in the middle, after a sign / point / exponent mark
+    let mut n = 0u64;
+    for c in crate::p03::sweep_chars() {
+        for s in [format!("{c}"), format!("{c}a"), format!("a{c}"), format!("a{c}a"), format!("_{c}"), format!("{c}1"), format!("{c}_"), format!("{c}{c}"),
+            format!("-{c}"), format!("1{c}"), format!("{c}0"), format!("1{c}5"), format!("1.{c}"), format!("1.5{c}"), format!("1.{c}5"), format!("1e{c}"), format!("1e+{c}"), format!("1e5{c}"), format!("1e{c}5"), format!("1.5e-{c}"), format!("{c}.5"), format!("{c}e5")] {
+            text_case(ctx, &s); n += 1;
+        }
+    }
+    ctx.stat_n("sweep_char_texts", n);
+    // every ASCII pair as a two-character text
+    for a in 0u8..128 { for b in 0u8..128 { text_case(ctx, &format!("{}{}", a as char, b as char)); } }
+    ctx.stat_n("ascii_pair_texts", 128 * 128);
+    let nums = crate::p03::number_family(&["", " ", "a", "e", ".", "0", "-", "+", "é", "\n"]);
+    ctx.stat_n("number_family_texts", nums.len() as u64);
+    for s in &nums { text_case(ctx, s); }
     // longer near-valid numeric literals
     let n = if ctx.thorough { 300_000 } else { 30_000 };
     let pieces = ["-", "0", "1", "9", "12", ".", ".5", "e", "E", "+", "-", "e10", "E-3", "e+", "007", "a", "_", "é", " "];
